@@ -93,6 +93,9 @@ var styleRePool = []rePoolEntry{
 	{regexp.MustCompile(`^[a-z ]*$`), []string{"", "a b", "re d"}, []string{"A1", "a;b"}},
 	{regexp.MustCompile(`^red`), []string{"red", "red !important"}, []string{"", "blue"}}, // unanchored at the end
 	{regexp.MustCompile(`px`), []string{"1px", "px\\"}, []string{"", "em"}},
+	// deny-list style patterns (negated classes): everything but a colon / a parenthesis
+	{regexp.MustCompile(`^[^:]*$`), []string{"red", "10px"}, []string{"a:b"}},
+	{regexp.MustCompile(`^[^(;]*$`), []string{"red", "a b"}, []string{"f(x)"}},
 }
 
 var styleEnumPool = [][]string{{"left", "right", "center"}, {"red", "re d", "BLUE"}, {"10px"}, {"none", "underline"}, {"solid", "block", "Dashed"}}
